@@ -493,8 +493,7 @@ def gen_cases(tier, seed):
     exprsB = [e for n in range(NA + 1, NB + 1)
               for e in all_exprs(n, [("var", "x"), ("var", "a")], {"sum", "call", "quot"}, 3, memo)
               if depth(e) >= 2]
-    if quick:
-        exprsB = exprsB[::2]          # quick tier: every second expression of stream B
+    exprsB = exprsB[::2]              # every second expression of stream B (budget)
     n_exh = 0
     for e in exprsA + exprsB:
         for fr in subsets(names(e)):
@@ -502,7 +501,7 @@ def gen_cases(tier, seed):
             n_exh += 1
     # random structured
     rng = random.Random(seed * 7919 + 18)
-    nrand = 2000 if quick else 40000
+    nrand = 2000 if quick else 20000
     for _ in range(nrand):
         e = random_expr(rng, rng.randint(2, 4))
         ns = names(e)
@@ -511,7 +510,7 @@ def gen_cases(tier, seed):
             fr.append("z")            # declared free but absent
         cases.append({"expr": e, "free": fr, "supplier": "v"})
     # contract-violating stream: only model-vs-implementation agreement is checked
-    nmal = 300 if quick else 4000
+    nmal = 300 if quick else 2000
     n_mal = 0
     for i in range(nmal):
         e = random_expr(rng, rng.randint(1, 3))
@@ -534,7 +533,7 @@ def gen_cases(tier, seed):
                                 "B: %s expressions with %d..%d nodes and depth >= 2 over atoms {x, a}, "
                                 "constructors {Sum, Call f, Quotient}; each x ALL subsets of its names "
                                 "(variables and function symbols) declared free"
-                                % (NA, "every second of the" if quick else "all", NA + 1, NB),
+                                % (NA, "every second of the", NA + 1, NB),
             "exhaustive_expressions": len(exprsA) + len(exprsB),
             "random_scope": "depth 2-4, 1-4 children, variables x y a b c, ints -2..3, functions f g, "
                             "each name free with probability 0.4"}
